@@ -17,7 +17,13 @@ TEXT = {
     "V4": "program o\n open(unit=10, file='f.dat', status='old')\n allocate(w(2), stat=ierr)\n write(10, *) 'total: ', x ! report\n stop 1\nend program o\n",
     # names that are intrinsic from Fortran 2008 on: references in a 2003 parse must not colour a later 2008 parse (and vice versa)
     "V5": "subroutine g\n y = erf(x) + gamma(x) + shiftl(i, 2)\n print *, 'y = ', y ! show it\nend subroutine g\n",
+    # labelled DO loops that end on an action statement (which statements may do that differs between the standards' class lists)
+    "V6": "subroutine h\n do 10 i = 1, 2\n 10 if (x > 0) y = 1\n do 20 i = 1, 2\n 20 allocate(w(2))\n do 30 i = 1, 2\n 30 open(10)\nend subroutine h\n",
+    # a unit name with capital letters, parsed successfully ...
+    "V7": "subroutine Grid_Tools\n real :: sin\n x = sin(1.0)\nend subroutine Grid_Tools\n",
     "I1": "subroutine a\n real :: cos\n @@ bad\nend subroutine a\n",
+    # ... and a failing unit of that name
+    "I8": "subroutine Grid_Tools\n real :: cos\n @@ bad\nend subroutine Grid_Tools\n",
     "I2": "subroutine a\n real :: cos\n if (x) then\n end if wrong\nend subroutine a\n",
     "I3": "real :: cos\nx = 1\nif (x > 0) then\nend if wrong\nend\n",
     "I4": "subroutine a\n real :: sin\n x = cos(1, 2)\nend subroutine a\n",
@@ -31,6 +37,8 @@ PROBES = {
     "X2": "program q\n block\n integer :: i\n end block\n b2: block\n end block b2\n x = cos(y)\nend program q\n",
     "X3": "module a\n real :: cos\ncontains\n subroutine b\n y = cos(1.0) + sin(1.0)\n end subroutine b\nend module a\n",
     "X4": "program r\n open(newunit=u, file='f')\n error stop\n y = sin(x)\nend program r\n",
+    "X6": "subroutine h\n do 10 i = 1, 2\n 10 if (x > 0) y = 1\n do 20 i = 1, 2\n 20 allocate(w(2))\n do 30 i = 1, 2\n 30 open(10)\n z = sin(x)\nend subroutine h\n",
+    "X7": "subroutine Grid_Tools\n x = sin(1.0) + cos(2.0)\nend subroutine Grid_Tools\n",
     "X5": "subroutine g\n y = erf(x) + gamma(x) + shiftl(i, 2)\n print *, 'y = ', y ! show it\n write(10, *) 'total: ', x ! report\nend subroutine g\n",
 }
 
@@ -57,7 +65,7 @@ def session(case):
     return {"id": case["id"], "steps": steps}
 
 
-UNITS = {"V1": {"a"}, "V2": {"m", "p"}, "V3": {"fparser2:main_program"}, "V4": {"o"}, "V5": {"g"}}
+UNITS = {"V1": {"a"}, "V2": {"m", "p"}, "V3": {"fparser2:main_program"}, "V4": {"o"}, "V5": {"g"}, "V6": {"h"}, "V7": {"grid_tools"}}
 
 
 def failing_traces(case):
